@@ -17,6 +17,37 @@ class MachineryError(Exception):
     pass
 
 
+class RequestTimeout(Exception):
+    """The code under test did not return within the per-request time limit."""
+
+
+import signal  # noqa: E402
+
+OP_TIMEOUT = float(os.environ.get("VERIF_OP_TIMEOUT", "5"))
+TIMEOUTS = [0]   # how many calls into the code under test ran out of time in this process
+
+
+def _on_alarm(signum, frame):
+    TIMEOUTS[0] += 1
+    raise RequestTimeout("no return within %.0fs" % OP_TIMEOUT)
+
+
+class time_limit(object):
+    """Bound the time one call into the code under test may take (a hang is an outcome)."""
+
+    def __init__(self, seconds=None):
+        self.seconds = seconds or OP_TIMEOUT
+
+    def __enter__(self):
+        self.old = signal.signal(signal.SIGALRM, _on_alarm)
+        signal.setitimer(signal.ITIMER_REAL, self.seconds)
+
+    def __exit__(self, *a):
+        signal.setitimer(signal.ITIMER_REAL, 0)
+        signal.signal(signal.SIGALRM, self.old)
+        return False
+
+
 def load_traph():
     """Import the package from the working tree (never a cached/installed copy)."""
     if REPO not in sys.path:
@@ -144,6 +175,49 @@ def real_match_len(rule, lru):
 
 
 # ---------------------------------------------------------------------------------------
+# Pagination tokens: "<prefix index>#<path in base 64>", the path being the base-4 digits of
+# the moves from the prefix node (1 left, 2 child, 3 right).  Own decoder, independent of
+# traph.helpers, so that the round trip through the text encoding is actually checked.
+# ---------------------------------------------------------------------------------------
+_B64 = "0123456789abcdefghijklmnopqrstuvwxyzABCDEFGHIJKLMNOPQRSTUVWXYZ-_"
+
+
+def token_decode(tok):
+    """-> (index, [base-4 digits]) or None if malformed."""
+    try:
+        i, p = tok.split("#")
+        x = 0
+        for c in p:
+            x = x * 64 + _B64.index(c)
+        digits = []
+        while x:
+            digits.append(x % 4)
+            x //= 4
+        digits.reverse()
+        return int(i), digits
+    except Exception:
+        return None
+
+
+def token_roundtrip(tok):
+    """The library's own parse/build agree with each other and with the independent decoder."""
+    import traph.helpers as th
+    try:
+        i, path = th.parse_pagination_token(tok)
+        if th.build_pagination_token(i, path) != tok:
+            return False
+        d = token_decode(tok)
+        if d is None or d[0] != i:
+            return False
+        x = 0
+        for g in d[1]:
+            x = x * 4 + g
+        return x == path and all(g in (1, 2, 3) for g in d[1])
+    except Exception:
+        return False
+
+
+# ---------------------------------------------------------------------------------------
 # Decoding raw bytes
 # ---------------------------------------------------------------------------------------
 def _ptr(v, bs):
@@ -266,7 +340,7 @@ def observe(ix):
            "lenT": 0, "lenL": 0}
     piece = "pages"
     try:
-        with warnings.catch_warnings():
+        with warnings.catch_warnings(), time_limit():
             warnings.simplefilter("ignore")
             pages = []
             for node, lru in t.pages_iter():
@@ -306,7 +380,7 @@ def apply_op(ix, op):
     name = op["op"]
     res = {"exc": "", "pages": 0, "created": [], "ret": None}
     try:
-        with warnings.catch_warnings():
+        with warnings.catch_warnings(), time_limit():
             warnings.simplefilter("ignore")
             if name == "AddPage":
                 res.update(report_dict(t.add_page(op["l"], crawled=op["cr"])))
@@ -334,6 +408,14 @@ def apply_op(ix, op):
                     op["anchor"], rule_regex(op["rule"]), write_in_trie=op["wr"])))
             elif name == "RemoveRule":
                 res["ret"] = t.remove_webentity_creation_rule(op["anchor"])
+            elif name == "Paginate":
+                res["ret"] = t.paginate_webentity_pages(
+                    op["id"], list(op["ps"]), page_count=op["k"] or None,
+                    pagination_token=op["token"], crawled_only=op["co"])
+            elif name == "PagLinks":
+                res["ret"] = t.paginate_webentity_pagelinks(
+                    op["id"], list(op["ps"]), include_internal=op["int"], include_outbound=op["out"],
+                    source_page_count=op["k"] or None, pagination_token=op["token"])
             elif name == "Reopen":
                 ix.close()
                 ix.open(op["def"], op["rules"])
